@@ -19,6 +19,12 @@ def main():
         return 2
     subprocess.run(["git", "-C", "/repo", "apply", patch], check=True)
     results = {}
+    # evidence written while a seeded change is applied must never be committed: keep the clean files and put them back
+    saved = {}
+    for p in props:
+        ev = os.path.join("/verif", "evidence", p + ".json")
+        if os.path.exists(ev):
+            saved[ev] = open(ev).read()
     try:
         for p in props:
             r = subprocess.run(["./check", p, "--tier", tier], cwd="/verif", capture_output=True, text=True)
@@ -29,6 +35,9 @@ def main():
                 print("   ", l[:300])
     finally:
         subprocess.run(["git", "-C", "/repo", "checkout", "--", "."], check=True)
+        for ev, txt in saved.items():
+            with open(ev, "w") as fp:
+                fp.write(txt)
     return 0
 
 
